@@ -509,3 +509,11 @@ Proof.
   - destruct H as (H1 & H2 & H3 & H4). destruct Hi as [E|Hi]; [|eapply IH; eassumption]. injection E as <- <-.
     rewrite state_at_gt; [exact H1|]. intros tc st Hc. eapply H3. apply in_ko_changes. exact Hc.
 Qed.
+
+Print Assumptions ping_step.
+Print Assumptions user_step_now.
+Print Assumptions quiet_adv.
+Print Assumptions adv_rok.
+Print Assumptions adv0_same.
+Print Assumptions good_app.
+Print Assumptions good_state_at.
